@@ -50,13 +50,15 @@ TOKENS = {
     "tablerow": "{% tablerow i in xs %}", "endtablerow": "{% endtablerow %}",
     "ifchanged": "{% ifchanged %}", "endifchanged": "{% endifchanged %}",
     "assign": "{% assign v = 1 %}", "echo": "{% echo a %}", "increment": "{% increment c %}", "cycle": "{% cycle 1, 2 %}",
-    "comment": "{% comment %}", "endcomment": "{% endcomment %}", "#": "{% # note %}",
+    "comment": "{% comment %}", "endcomment": "{% endcomment %}", "#": "{% # note %}", "commentx": "{% comment TODO: remove this %}",
+    # end tags of names that are not block tags
+    "endassign": "{% endassign %}", "endelse": "{% endelse %}", "endbreak": "{% endbreak %}", "endwhen": "{% endwhen %}", "endecho": "{% endecho %}",
     "nosuch": "{% nosuch x %}", "endnosuch": "{% endnosuch %}", "foo": "{% foo %}", "end": "{% end %}",
     "with": "{% with v: 1 %}", "endwith": "{% endwith %}", "macro": "{% macro 'm' x %}", "endmacro": "{% endmacro %}", "call": "{% call 'm' 1 %}",
     "block": "{% block b %}", "endblock": "{% endblock %}", "translate": "{% translate %}", "plural": "{% plural %}", "endtranslate": "{% endtranslate %}",
     "text": "t", "out": "{{ a }}",
 }
-CORE = ["if", "elsif", "else", "endif", "for", "endfor", "break", "case", "when", "endcase", "unless", "endunless", "nosuch", "endnosuch", "assign", "text"]
+CORE = ["if", "elsif", "else", "endif", "for", "endfor", "break", "case", "when", "endcase", "unless", "endunless", "nosuch", "endnosuch", "assign", "text", "commentx", "endcomment", "endassign"]
 ALL = [k for k in TOKENS]
 EXTRA_ONLY = {"with", "endwith", "macro", "endmacro", "call", "block", "endblock", "translate", "plural", "endtranslate"}
 TAG_RE = re.compile(r"\{%-?\s*(#|\w*)")
